@@ -192,6 +192,17 @@ Proof. unfold fp_exit. split; [apply Forall_forall; intros c Hc; apply in_map_if
 Theorem filepool_open_all n : Forall (fun c => c = false) (fp_open n) /\ length (fp_open n) = n.
 Proof. unfold fp_open. split; [apply Forall_forall; intros c Hc; apply repeat_spec in Hc; exact Hc | apply repeat_length]. Qed.
 
+(* a pool one of whose paths cannot be opened leaves no handle open, however many were opened before the failure *)
+Theorem filepool_failing_open_leaks_nothing k :
+  count_open (fp_open_failing k) = 0 /\ length (fp_open_failing k) = k.
+Proof.
+  unfold count_open, fp_open_failing, fp_exit, fp_open. rewrite map_length, repeat_length. split; [|reflexivity].
+  induction k as [|k IH]; simpl; [reflexivity | exact IH].
+Qed.
+(* and in general: after leaving, count_open is 0 whatever the body did *)
+Theorem filepool_exit_none_open hs : count_open (fp_exit hs) = 0.
+Proof. unfold count_open, fp_exit. induction hs as [|h t IH]; simpl; [reflexivity | exact IH]. Qed.
+
 (* History: the original flush bound a NEW list; a forked child kept the old one and its later file survived the context *)
 Theorem orig_flush_leaks :
   let ops := [(0, TCreate); (0, TFork); (0, TFlush); (1, TCreate); (0, TFlush)] in
